@@ -49,8 +49,8 @@ def check_sources(ctx, cfg, built, view, req, url_values, dstate_ids, rc):
             kinds.add(kind)
             ok = True
             if kind == 'url':
-                ok = (got == url_values.get(name)) and type(got) is str
                 want = url_values.get(name)
+                ok = (got == want) and type(got) is type(want)
             elif kind == 'resource':
                 want = w.resources[(detail, name)]
                 ok = got is want
